@@ -93,6 +93,12 @@ theorem det_fromBlocks22 (A : Matrix m m α) (B : Matrix m n α) (C : Matrix n m
 theorem det_diagonal (d : n → α) : det (Matrix.diagonal d) = ∏ i, d i :=
   Matrix.det_diagonal
 
+/-- Heteroscedastic covariance with a square factor: `det (A (1 + D) Aᵀ) = det (A Aᵀ) * ∏ (1 + d i)`. -/
+theorem det_gram_diag (A : Matrix n n α) (d : n → α) :
+    det (A * Matrix.diagonal (fun i => 1 + d i) * Aᵀ) = det (A * Aᵀ) * ∏ i, (1 + d i) := by
+  rw [det_mul, det_mul, det_mul, det_transpose, Matrix.det_diagonal]
+  ring
+
 /-- 7. Determinant of a principal sub-block of `Σ` in terms of the complementary
 block of its inverse `Λ` (marginalisation: `det Σ_aa = det Σ * det Λ_cc`). -/
 theorem det_principal_submatrix (Sg Lm : Matrix (a ⊕ c) (a ⊕ c) α)
